@@ -114,6 +114,7 @@ def unknown_frame(rng, gen: int, pid: int | None = None) -> tuple[bytes, str]:
 
 
 LONG_SIZES = (255, 256, 600, 1017, 1018, 1019, 1022, 1023, 1024, 1025, 1500, 2046, 2047, 2600, 4096, 9000)
+HUGE_SIZES = (4097, 16383, 16384, 32767, 32768, 40000, 65000, 65523)  # around the sign bit / top of the 16-bit length field (AT5: 65523 is the maximum)
 
 
 def long_frame(rng, gen: int, pid: int | None = None, size: int | None = None) -> tuple[bytes, str]:
